@@ -1,0 +1,21 @@
+//go:build verif
+
+// Gate points for the C13 verification harness (/verif): the endpoint index calls verifGate at
+// the two lock-region boundaries that matter for concurrent updates and deletes
+// ("update:after-lookup": UpdateServiceEndpoints holds the *EndpointShards it looked up or created
+// and no lock yet; "delete:before-unlink": deleteServiceInner is about to remove an empty
+// EndpointShards from the index, holding both locks). The harness installs a callback that parks
+// the calling goroutine so that interleavings can be scripted. Built only with -tags verif; the
+// default callback does nothing.
+package model
+
+var verifGate = func(point string) {}
+
+// VerifC13SetGate installs the gate callback (nil restores the no-op). Call it only while no
+// goroutine is inside the endpoint index.
+func VerifC13SetGate(f func(point string)) {
+	if f == nil {
+		f = func(string) {}
+	}
+	verifGate = f
+}
